@@ -2888,6 +2888,8 @@ class RedunBackendDb(RedunBackend):
             )
             for key, value in tags
         ]
+        # A key-value pair listed more than once is still one tag.
+        tag_rows = list({tag_row.tag_hash: tag_row for tag_row in tag_rows}.values())
 
         if new:
             # Here, we force the tags to be current by walking down the
